@@ -33,6 +33,7 @@ func runC12(p *core.Prog, r *core.Report) {
 	c12R4(p, r)
 	c12R5(p, r)
 	c12R6(p, r, "C12.R6")
+	c12R7(p, r)
 }
 
 // reqLiteral is a reghttp.Req allocation with the constant fields the literal (and later direct
@@ -189,7 +190,8 @@ func c12R3(p *core.Prog, r *core.Report) {
 		return
 	}
 	reach := reachers(p, doers)
-	for _, rel := range []string{"internal/reghttp", "internal/auth", "scheme/reg"} {
+	rels := []string{"internal/reghttp", "internal/auth", "scheme/reg"}
+	for _, rel := range rels {
 		for _, fn := range pkgFuncs(p, rel) {
 			lab := labeler{}
 			for _, l := range core.Loops(fn) {
@@ -1228,5 +1230,102 @@ func c12R6(p *core.Prog, r *core.Report, rule string) {
 		ok := !seen[ai]
 		r.Check(ok, rule, fname, lab.next("Acquire after release of "+ownN.Obj().Name()+"."+ownF), p.Pos(a.Pos()),
 			"from the function entry (re-entry from Read or Seek with a slot still stored) the Acquire must only be reachable through `if field != nil { field(); field = nil }`")
+	}
+}
+
+// ---------------------------------------------------------------------------------------------
+// R7 client-side marker pagers stop when the server makes no progress
+
+func c12R7(p *core.Prog, r *core.Report) {
+	const rule = "C12.R7"
+	r.Rule(rule, "a loop that pages through a listing by sending the last entry of the previous page as marker (RepoList / TagList of the client, outside the registry scheme) leaves when a page is empty and when the page's last entry equals the marker just sent; a registry that ignores or mis-handles the marker otherwise makes the loop repeat the same request forever", 1)
+	isListing := func(f *types.Func) bool {
+		return core.IsModMethod(f, ".", "RegClient", "RepoList") || core.IsModMethod(f, ".", "RegClient", "TagList")
+	}
+	n := 0
+	for _, fn := range p.ModFuncs {
+		pk := core.FuncPkg(fn)
+		if pk == nil || fn.Synthetic != "" || strings.HasPrefix(pk.Path(), modPath("scheme")) || strings.HasPrefix(pk.Path(), modPath("internal")) {
+			continue
+		}
+		lab := labeler{}
+		for _, l := range core.Loops(fn) {
+			if strings.HasPrefix(l.Header.Comment, "range") {
+				continue
+			}
+			var listing ssa.CallInstruction
+			l.Instrs(func(in ssa.Instruction) {
+				if c, ok := in.(ssa.CallInstruction); ok && isListing(core.Callee(c)) {
+					listing = c
+				}
+			})
+			if listing == nil {
+				continue
+			}
+			n++
+			fname := p.FuncName(fn)
+			label := lab.next("marker pager")
+			// loop-carried values: phis of the header, and cells stored inside the loop
+			carried := func(v ssa.Value) bool {
+				for d := 0; d < 4 && v != nil; d++ {
+					switch x := v.(type) {
+					case *ssa.Phi:
+						return x.Block() == l.Header
+					case *ssa.UnOp:
+						if x.Op != token.MUL {
+							return false
+						}
+						al, ok := x.X.(*ssa.Alloc)
+						if !ok {
+							return false
+						}
+						for _, st := range core.StoresToCell(al) {
+							if l.Blocks[st.Block()] {
+								return true
+							}
+						}
+						return false
+					default:
+						return false
+					}
+				}
+				return false
+			}
+			emptyExit, progressExit := false, false
+			for _, e := range l.Exits() {
+				ifi, ok := core.LastInstr(e[0]).(*ssa.If)
+				if !ok {
+					continue
+				}
+				cnd, _ := core.StripNot(ifi.Cond, true)
+				bo, ok := cnd.(*ssa.BinOp)
+				if !ok {
+					continue
+				}
+				if bo.Op == token.EQL || bo.Op == token.NEQ {
+					if isStringType(bo.X.Type()) && (carried(bo.X) || carried(bo.Y)) {
+						progressExit = true
+					}
+				}
+				for _, side := range []ssa.Value{bo.X, bo.Y} {
+					if c, ok := side.(*ssa.Call); ok {
+						if b, ok := c.Call.Value.(*ssa.Builtin); ok && b.Name() == "len" {
+							emptyExit = true
+						}
+					}
+				}
+			}
+			switch {
+			case emptyExit && progressExit:
+				r.Held(rule, fname, label, p.Pos(listing.Pos()), "leaves on an empty page and when the last entry equals the marker")
+			case !progressExit:
+				r.Violated(rule, fname, label, p.Pos(listing.Pos()), "no exit compares the marker that was sent with the page that came back: against a registry that ignores the marker the same request is repeated without end")
+			default:
+				r.Violated(rule, fname, label, p.Pos(listing.Pos()), "no exit on an empty page")
+			}
+		}
+	}
+	if n == 0 {
+		r.Held(rule, "module", "no client-side marker pager", "", "nothing pages through a listing outside the registry scheme")
 	}
 }
